@@ -107,6 +107,14 @@ def check(tier, seed, replay=None):
             # (e.g. NaN map keys, which the model's association lists do not mirror), not a violation
             tally.setdefault("class_disagreements_ok_vs_err", 0)
             tally["class_disagreements_ok_vs_err"] += 1
+        if bad and cg == "crash" and ("out of memory" in g or "makeslice" in g or "makemap" in g) and "map[float" in s.def_bop(d):
+            # a NaN key: Go re-reads the map entry it has just stored to compute its advance and finds nothing (NaN != NaN), so the byte decoder goes on
+            # misaligned and the next "count" it meets is garbage - the count-before-check finding, reached through a gap of the model (association
+            # lists keep NaN keys apart), which therefore cannot predict it.  Narrow: fatal allocation + a float-keyed map in the type.
+            nan_hits = run.notes.get("nan_key_misalignment_oom", 0) + 1
+            run.notes["nan_key_misalignment_oom"] = nan_hits
+            if run.known("C07/count-reaches-make-or-loop-before-any-check", "a count read from the input reaches make() before any check (here after a NaN map key misaligned the byte decoder)"):
+                bad = None
         if bad:
             found = True
             if len(run.violations) < 4:
